@@ -156,6 +156,12 @@ def check_C13(c):
     sl = dict(MinRank=3, MaxRank=3 if q else 4, MaxDim=2, MaxDimHi=3, FullRank=0, Depth=1, WithT=False, Ctors={S("C")}, MaxStep=2)
     cases = c.tlc("MC_slice", "slice-calc-hi", sl, ["TypeOK", "Emit"])
     c.replay("slice-calc-hi", cases, dtypes="int16", pals="ident", extra=["-calc"])
+    # (d) repetition and concatenation: the argument spaces of C10 against Shape.Repeat / Shape.Concat
+    for name, k in assemble_jobs(q):
+        if name.startswith("asm-stack"):
+            continue
+        cases = c.tlc("MC_assemble", name + "-calc", k, ["TypeOK", "Emit"])
+        c.replay(name + "-calc", cases, dtypes="float32", pals="ident", extra=["-calc"])
     c.rep.rule = ("TLC enumerates (a) Reshape to every factorisation of the size (and to wrong sizes) of every tensor of rank 0-4 as built, "
                   "sliced or lazily transposed, row- and column-major; (b) every axis list for T (valid, repeated, out of range, wrong length); "
                   "(c) the slicing argument space of C02; (d) the repeat/concat argument spaces of C10. The replayer executes the operation "
@@ -265,7 +271,60 @@ def check_C08(c):
                          "sums of non-integer floats are compared within 8 ulp (accumulation order is not specified); NaN in arg-reductions is left open"]
 
 
-CHECKS = {"C01": check_C01, "C02": check_C02, "C03": check_C03, "C04": check_C04, "C13": check_C13, "C06": check_C06, "C07": check_C07, "C11": check_C11, "C12": check_C12, "C08": check_C08}
+def check_C09(c):
+    q = c.quick
+    inv = ["TypeOK", "CopiesDisjoint", "Emit"]
+    lay = ("C", "T", "Col", "Row") if q else ("C", "T", "Tp", "Row", "Col", "Step", "Mat")
+    jobs = [("linalg-mat", dict(MaxDim=2 if q else 3, MaxRankT=2, LayA={S(x) for x in lay}, LayB={S(x) for x in lay},
+                                Modes={S("safe"), S("reuse"), S("incr")},
+                                Kinds={S(x) for x in ("MatMul", "MatVecMul", "Inner", "Outer", "Trace")})),
+            ("linalg-tensor", dict(MaxDim=2, MaxRankT=3, LayA={S(x) for x in (("C", "T", "Col") if q else lay)},
+                                   LayB={S(x) for x in (("C", "Col") if q else lay)}, Modes={S("safe")},
+                                   Kinds={S("TensorMul"), S("Dot")}))]
+    if not q:
+        jobs.append(("linalg-mat4", dict(MaxDim=4, MaxRankT=2, LayA={S("C"), S("T"), S("Col")}, LayB={S("C"), S("T"), S("Col")},
+                                         Modes={S("safe"), S("reuse"), S("incr")}, Kinds={S("MatMul"), S("MatVecMul"), S("Outer")})))
+    for name, k in jobs:
+        cases = c.tlc("MC_linalg", name, k, inv)
+        c.replay(name, cases, dtypes="floatcomplex", pals="ident,signed" + ("" if q else ",edge"), rotate=2 if q else 0,
+                 extra=["-entries", "func,method"] + (["-palrotate", "1"] if q else []))
+    c.rep.rule = ("TLC enumerates operand shape combinations (vector forms (n),(n,1),(1,n); matrices; rank-3 operands with every valid "
+                  "single and double contraction axis pair; the Dot dispatch; Trace) x an independent layout per operand x {safe, reuse, "
+                  "incr}; the specification gives every result element as a sum of products over the contracted indices of the operands' "
+                  "logical elements; the replayer executes float32/float64/complex64/complex128, compares integer-valued results exactly "
+                  "and others within n*eps*sum|x_i*y_i|, and compares every operand and backing afterwards")
+    c.rep.assumptions = ["a refusal is accepted for any combination (the statement allows refusing unsupported combinations loudly); a panic is not a refusal"]
+
+
+def assemble_jobs(q):
+    lay = ("C", "T", "Col", "Step") if q else ("C", "T", "Tp", "Row", "Col", "Step", "Mat")
+    jobs = [("asm-concat", dict(MinRank=1, MaxRank=2 if q else 3, MaxDim=2, MaxDimHi=2, HiRank=3, Lays={S(x) for x in lay},
+                                MaxOps=3 if q else 3, Kinds={S("Concat"), S("ConcatMismatch")}, RepCounts={0, 1, 2})),
+            ("asm-stack", dict(MinRank=1, MaxRank=2 if q else 3, MaxDim=2, MaxDimHi=2, HiRank=3, Lays={S(x) for x in lay},
+                               MaxOps=3, Kinds={S("Stack")}, RepCounts={0, 1, 2})),
+            ("asm-repeat", dict(MinRank=1, MaxRank=3 if q else 4, MaxDim=3, MaxDimHi=2, HiRank=3 if q else 4,
+                                Lays={S(x) for x in (lay if q else lay)}, MaxOps=1, Kinds={S("Repeat")}, RepCounts={0, 1, 2}))]
+    if not q:
+        jobs.append(("asm-concat4", dict(MinRank=1, MaxRank=2, MaxDim=2, MaxDimHi=2, HiRank=3, Lays={S("C"), S("T"), S("Col")},
+                                         MaxOps=4, Kinds={S("Concat"), S("Stack")}, RepCounts={1})))
+    return jobs
+
+
+def check_C10(c):
+    q = c.quick
+    inv = ["TypeOK", "CopiesDisjoint", "OperandsIntact", "Emit"]
+    for name, k in assemble_jobs(q):
+        cases = c.tlc("MC_assemble", name, k, inv)
+        c.replay(name, cases, dtypes="sizes", pals="ident", rotate=2 if q else 0, extra=["-entries", "func,method"])
+    c.rep.rule = ("TLC enumerates 1-4 operands x shapes of rank 1-4 x every axis (valid, and one past the last) x an independent layout per "
+                  "operand for Concat (incl. Hstack/Vstack through the methods) and Stack, operand lists whose shapes do not fit, and Repeat "
+                  "with uniform and per-element counts including zero and a wrong number of counts, along every axis and flattened; results "
+                  "are pure copies of operand cells placed as NumPy's concatenate/stack/repeat define; element sizes 1,2,4,8,16 bytes and "
+                  "strings; operands (shape, elements, backing) are compared afterwards")
+    c.rep.assumptions = ["a repeat that leaves no element is left open (the library has no empty tensors)", "a refusal of a fitting input is accepted"]
+
+
+CHECKS = {"C01": check_C01, "C02": check_C02, "C03": check_C03, "C04": check_C04, "C13": check_C13, "C06": check_C06, "C07": check_C07, "C11": check_C11, "C12": check_C12, "C08": check_C08, "C09": check_C09, "C10": check_C10}
 
 HOOK_COMMITS = []
 NOT_YET = {}
@@ -306,6 +365,14 @@ LEVELS = {
             "technique": "TLC-enumerated reduction structures (MC_reduce, invariant FibresPartition) replayed with every fold, element type and palette",
             "text": "bounded exhaustive model checking of which elements are folded into which result position for every axis set, order of listing and operand layout; folds evaluated with Go's operators (integer sums wrap), first-index rule for arg-reductions",
             "note": "bounded (rank<=4, dims<=3); refusal accepted"},
+    "C09": {"ref": "DESIGN.md 4 C09",
+            "technique": "TLC-enumerated product structures (MC_linalg over ProductSpec/ContractCells in Tensor.tla) replayed for the float and complex element types",
+            "text": "bounded exhaustive model checking of which operand elements are multiplied and summed into which result element, for every operand shape combination, contraction axis choice, operand layout and option mode in bounds",
+            "note": "bounded (dims<=3, thorough 4; rank<=3 for contractions); refusal accepted; rounding tolerance n*eps*sum|x*y| for non-integer data"},
+    "C10": {"ref": "DESIGN.md 4 C10",
+            "technique": "TLC-enumerated assembly structures (MC_assemble over ConcatT/StackT/RepeatT in Tensor.tla) replayed for every element size",
+            "text": "bounded exhaustive model checking of the placement of every operand element in the result for every operand count, axis, operand layout and repeat-count vector in bounds; must-reject inputs (non-fitting shapes, wrong number of counts) included",
+            "note": "bounded (<=4 operands, rank<=4, dims<=3)"},
     "C01": {"ref": "DESIGN.md 4 C01",
             "technique": "TLC-enumerated behaviours of the TLA+ tensor machine (MC_addr) replayed on the real library",
             "text": "bounded exhaustive model checking: TLC enumerates every shape/constructor/layout in bounds and the complete coordinate->cell table of each; every table entry is executed (At and SetAt) on the real tensor for every element type, with a full snapshot of all storage around each write",
